@@ -391,7 +391,8 @@ static struct rnode *rnode_atom(char **pat)
 			rnode->maxcnt = rnode->mincnt;
 		}
 		++*pat;
-		if (rnode->mincnt > NREPS || rnode->maxcnt > NREPS) {
+		if (rnode->mincnt > NREPS || rnode->maxcnt > NREPS ||
+				(rnode->maxcnt >= 0 && rnode->maxcnt < rnode->mincnt)) {
 			rnode_free(rnode);
 			return NULL;
 		}
